@@ -777,4 +777,26 @@ pub struct MPMCFutSender<T> {""")]),
         match self.recv.recv() {""")]),
     V('rf-scan-max-call', None, [], [E(RC, "max_diff = if diff > max_diff { diff } else { max_diff };", "max_diff = ::std::cmp::max(diff, max_diff);")], kind='refactor'),
     V('rf-scan-max-flipped', None, [], [E(RC, "max_diff = if diff > max_diff { diff } else { max_diff };", "if max_diff < diff { max_diff = diff; }")], kind='refactor'),
+
+    # ---------------------------------------------------------------- thorough-tier sweeps
+    V('sweep-payload-touch-in-unsubscribe', 'C05', ['W3s'], [E(MQ, """    /// Identical to InnerRecv::unsubscribe()
+    pub fn unsubscribe(self) -> bool {
+        self.reader.reader.get_consumers() == 1
+    }
+
+    pub fn into_multi(self)""", """    /// Identical to InnerRecv::unsubscribe()
+    pub fn unsubscribe(self) -> bool {
+        if self.reader.reader.get_consumers() == 7 {
+            unsafe { ptr::drop_in_place(&mut (*self.reader.queue.data.offset(0)).val) };
+        }
+        self.reader.reader.get_consumers() == 1
+    }
+
+    pub fn into_multi(self)""")]),
+    V('sweep-head-write-in-add-stream', 'C01', ['W1s', 'W1'], [E(MQ, """    pub fn add_stream(&self) -> InnerRecv<RW, T> {
+        InnerRecv {""", """    pub fn add_stream(&self) -> InnerRecv<RW, T> {
+        if self.reader.get_consumers() == 9 {
+            self.queue.head.load_transaction(Relaxed).commit_direct(1, Relaxed);
+        }
+        InnerRecv {""")]),
 ]
